@@ -106,3 +106,43 @@ fn d19_header_regex_honours_ignore_header_case() {
         assert_eq!(ids(&router, &q), vec!["r1".to_string(), "r2".to_string()], "ignore_header_case={}", flag);
     }
 }
+
+/// D20 (C05, R05.3): when a conditional log override is merged over an unconditional one, the
+/// merged override keeps the *fallback* rule's unit id, so the wrong unit is credited.
+#[test]
+fn d20_merged_log_override_credits_the_applied_rules_unit() {
+    use redirectionio::action::UnitTrace;
+    let cfg = RouterConfig::default();
+    let mut router = Router::<Rule>::from_config(cfg.clone());
+    router.insert(rule(r#"{"id":"rA","rank":2,"source":{"path":"/a"},"log_override":true,"configuration_log_unit_id":"uA"}"#));
+    router.insert(rule(
+        r#"{"id":"rB","rank":1,"source":{"path":"/a","response_status_codes":[404]},"log_override":false,"configuration_log_unit_id":"uB"}"#,
+    ));
+    let q = req(&cfg, "/a", None, None);
+    let mut action = Action::from_routes_rule(router.match_request(&q), &q, None);
+    let mut trace = UnitTrace::default();
+    let log = action.should_log_request(true, 404, Some(&mut trace));
+    trace.squash_with_target_unit_traces();
+    assert!(!log, "rule rB (log_override:false) decides for a 404");
+    let units: Vec<String> = trace.get_unit_ids_applied().into_iter().collect();
+    assert_eq!(units, vec!["uB".to_string()], "the unit of the rule that decided must be credited");
+}
+
+/// D2 (C11, R11.3): variables of equal name length are substituted in hash order, so the
+/// Location of one and the same request varies between runs.
+#[test]
+fn d02_equal_length_variable_names_are_substituted_in_a_fixed_order() {
+    let cfg = RouterConfig::default();
+    let mut outs = std::collections::BTreeSet::new();
+    for _ in 0..64 {
+        let mut router = Router::<Rule>::from_config(cfg.clone());
+        router.insert(rule(
+            r#"{"id":"r1","rank":1,"source":{"path":"/@a1/@b1"},"target":"/t/@a1/@b1","status_code":301,"markers":[{"name":"a1","regex":"[^/]+"},{"name":"b1","regex":"[^/]+"}]}"#,
+        ));
+        let q = req(&cfg, "/@b1/x", None, None);
+        let mut action = Action::from_routes_rule(router.match_request(&q), &q, None);
+        let h = action.filter_headers(Vec::new(), 0, false, None);
+        outs.insert(format!("{:?}", h.iter().map(|h| h.value.clone()).collect::<Vec<_>>()));
+    }
+    assert_eq!(outs.len(), 1, "Location must not depend on hash order: {:?}", outs);
+}
